@@ -234,9 +234,9 @@ func partTrees(rp *reporter, maxN, fullUpTo int) *treeStats {
 		st := &treeStats{behaviours: map[string]struct{}{}}
 		for i := ci * chunk; i < (ci+1)*chunk && i < len(jobs); i++ {
 			j := jobs[i]
-			evalTree(rp, j.n, false, j.levels, st)
+			evalTree(rp.at(uint64(i)*2), j.n, false, j.levels, st)
 			if j.n.k == kIncr {
-				evalTree(rp, j.n, true, boundaryLevels, st)
+				evalTree(rp.at(uint64(i)*2+1), j.n, true, boundaryLevels, st)
 			}
 		}
 		mu.Lock()
@@ -304,6 +304,7 @@ func main() {
 	if stopProf != nil {
 		stopProf()
 	}
+	rp.flush()
 	byKey := rp.byKey()
 	keys := make([]string, 0, len(byKey))
 	for k := range byKey {
@@ -316,13 +317,14 @@ func main() {
 	}
 
 	run.Assume = []string{
-		"levels: all 256 int8 values for trees of <= fullUpTo nodes, the 12 boundary levels {-128,-2,debug..fatal,invalid,invalid+1,127} for larger trees; Enabled(l) is compared at all 256 values for every tree",
+		fmt.Sprintf("levels: all 256 int8 values for trees of <= %d nodes, the 12 boundary levels {-128,-2,debug..fatal,invalid,invalid+1,127} for larger trees; Enabled(l) is compared at all 256 values for every tree", fullUpTo),
 		"the shared AtomicLevel only takes the seven named levels and InvalidLevel (zap documents nothing for an AtomicLevel set to another out-of-range value)",
 		"the sampler's budget (first = MaxInt32 per tick of 1h) is never exhausted, so it must be transparent; sampling decisions are property C11",
 		"Panic/Fatal terminal actions are replaced through WithPanicHook/WithFatalHook by a counting no-op so the enumeration survives them; termination is property C06",
 		"lazy With fields: only 'a disabled call below DPanic whose core reports Enabled=false evaluates nothing' is demanded (Logger.check documents that the pre-check is skipped from DPanic upwards); eager With fields are marshaled at construction and are not counted against an entry",
 		"message formatting cost of SugaredLogger on disabled calls is not observed (not part of the statement)",
-		"loggers are non-development; caller and stack annotations off/default",
+		"loggers are non-development, without caller annotation, and with stack traces switched off (AddStacktrace(never)): by default zap captures a stack for every level above Fatal, which is irrelevant here and slow",
+		"other front ends that end in Logger.Check (zapio.Writer, the std-log bridge, zapslog, zaptest) are covered by their own properties (C17, C13, C18)",
 	}
 	samples := append(append([]any{}, ts.samples...), hs.samples...)
 	run.Finish(map[string]any{
@@ -382,6 +384,7 @@ func replay(run *ev.Run, rp *reporter, file string) {
 		st := &treeStats{behaviours: map[string]struct{}{}}
 		evalTree(rp, n, doc.Case.Variant == "option", allLevels, st)
 	}
+	rp.flush()
 	hit := rp.byKey()[doc.Key] > 0
 	fmt.Printf("replay: recorded key reproduced: %v\n", hit)
 	if run.Violations() > 0 || hit {
